@@ -243,6 +243,20 @@ def sorted_provenance(e, fn, depth=0):
             return True, name
         if isinstance(e.func, ast.Attribute) and e.func.attr == 'copy' and _is_knot_array(e.func.value):
             return True, 'copy of an existing knot vector'
+        pos = e.args[1] if len(e.args) >= 3 else None
+        if name == 'np.insert' and pos is not None and _is_knot_array(e.args[0]) and isinstance(pos, ast.Call) \
+                and (call_name(pos) == 'np.searchsorted' or (isinstance(pos.func, ast.Attribute) and pos.func.attr == 'searchsorted')):
+            # merging by insertion positions keeps the RELATIVE order of the inserted values: values that share an insertion index (same
+            # span) stay in the order they were passed in
+            x = e.args[2]
+            params = {a.arg for a in fn.args.posonlyargs + fn.args.args + fn.args.kwonlyargs}
+            if isinstance(x, ast.Name) and x.id in params:
+                return False, ('np.insert at searchsorted positions keeps the inserted values in the order given: two new knots of one span passed in '
+                               'descending order (refine([0.35, 0.3])) arrive unsorted -- `%s` is supplied by the caller in arbitrary order' % x.id)
+            ok, why = sorted_provenance(x, fn, depth + 1)
+            if ok:
+                return True, 'merge of two sorted arrays'
+            return None, 'order of the inserted values unknown'
         if name == 'np.concatenate' and e.args and isinstance(e.args[0], (ast.Tuple, ast.List)):
             parts = e.args[0].elts
             # monotone concatenation: repeat(a), repeat(increasing in (a,b)), repeat(b)
